@@ -55,7 +55,17 @@ func receiptCases(r *rand.Rand, tag string, n int) []receiptCase {
 			out = append(out, rc)
 		}
 		cp := func(b []byte) []byte { return append([]byte(nil), b...) }
-		switch i % 18 {
+		switch i % 19 {
+		case 18:
+			// every field of the triple agrees (the hash is the digest of the empty
+			// text, the signature is genuine) but the text is empty: bad request,
+			// never queued, never forwarded
+			eh := xcrypto.Keccak256(nil)
+			es, err := xcrypto.Sign(key, eh)
+			if err != nil {
+				panic(err)
+			}
+			mk("empty-receipt-consistent-hash-and-signature", "", eh, es)
 		case 14:
 			mk("hash-junk-prepended-36", text, append([]byte{0xde, 0xad, 0xbe, 0xef}, hash...), sig)
 		case 15:
@@ -263,6 +273,9 @@ func runReceiptScenario(c *check.Ctx, bin, mode string, nConn int, cases []recei
 		}
 		got := byText[rc.Receipt]
 		if rc.Receipt == "" {
+			if len(got) > 0 {
+				c.Report(c19f("forward/refused-receipt-forwarded", rc.Name, "the %s triple (hash %x signature %x) is answered with bad request, yet a receipt with empty text was POSTed to the credit service %d times", rc.Name, rc.Hash, rc.Sig, len(got)))
+			}
 			continue
 		}
 		switch {
@@ -301,7 +314,7 @@ func queueFull(c *check.Ctx, bin string, st *c19stats) bool {
 		c.Inconc(err.Error())
 		return false
 	}
-	cases := receiptCases(rand.New(rand.NewSource(c.Seed)), "q", 18*9)
+	cases := receiptCases(rand.New(rand.NewSource(c.Seed)), "q", 19*9)
 	var valid []receiptCase
 	for _, rc := range cases {
 		if rc.Valid {
@@ -332,6 +345,20 @@ func queueFull(c *check.Ctx, bin string, st *c19stats) bool {
 				return false
 			}
 			reached = true
+		}
+		if i%14 == 3 || i == total-1 {
+			// an empty-field receipt is a bad request whatever the state of the
+			// queue, and takes no slot in it (the capacity count below is unchanged)
+			eh := xcrypto.Keccak256(nil)
+			es, _ := xcrypto.Sign("59c6995e998f97a5a0044966f0945389dc9e86dae88c7a8412f4603b6b78690d", eh)
+			ea, _, err := cl.Do(&hagallpb.ReceiptRequest{Type: d.TReceiptReq, Timestamp: d.NewTag(), RequestId: cl.NextReqID(), Receipt: "", Hash: eh, Signature: es})
+			if err != nil {
+				c.Report(c19f("answer/connection-blocked-or-ended", trig, "an empty-field submission with the queue held: the connection barrier failed: %v", err))
+				return reached
+			}
+			if code, ok := scen.IsErr(ea); !ok || code != 400 {
+				c.Report(c19f("answer/empty-field-not-bad-request", trig, "an empty-text receipt submitted while the verifier is held (%d accepted, %d too busy so far) was answered %s", accepted, busy, ea))
+			}
 		}
 		switch code, isErr := scen.IsErr(a); {
 		case a == nil:
@@ -463,6 +490,10 @@ func partReceiptsRealBinary(c *check.Ctx, a *acc) {
 	}
 	for _, rc := range cases {
 		if rc.Receipt == "" {
+			if n := byText[""]; n > 0 {
+				c.Report(c19f("forward/refused-receipt-forwarded", rc.Name, "real binary: the %s triple is answered with bad request, yet a receipt with empty text was POSTed to the credit service %d times", rc.Name, n))
+			}
+			invalid++
 			continue
 		}
 		switch {
